@@ -22,6 +22,7 @@ type verifChanPC struct {
 	onClose  func() // native barrier hook for lock-order replays
 	reads    int
 	gen      int
+	expired  bool
 }
 
 func (c *verifChanPC) ReadFrom(p []byte) (int, net.Addr, error) {
@@ -61,9 +62,20 @@ func (c *verifChanPC) Close() error {
 	close(c.closedCh)
 	return nil
 }
-func (c *verifChanPC) LocalAddr() net.Addr                 { return c.local }
-func (c *verifChanPC) SetDeadline(t verifTimeT) error      { return nil }
-func (c *verifChanPC) SetReadDeadline(t verifTimeT) error  { return nil }
+func (c *verifChanPC) LocalAddr() net.Addr            { return c.local }
+func (c *verifChanPC) SetDeadline(t verifTimeT) error { return nil }
+func (c *verifChanPC) SetReadDeadline(t verifTimeT) error {
+	// a deadline that has already passed makes pending and later reads time out
+	if c.expireCh != nil && !t.IsZero() && !t.After(time.Now()) {
+		c.mu.Lock()
+		if !c.expired {
+			c.expired = true
+			close(c.expireCh)
+		}
+		c.mu.Unlock()
+	}
+	return nil
+}
 func (c *verifChanPC) SetWriteDeadline(t verifTimeT) error { return nil }
 
 var (
